@@ -5,6 +5,7 @@ CONSTANTS
   Degs = {0, 1, 2, 3, 4}
   MaxSwitch = 1
   RecDegs = {0}
+  RecMax = 9
   MaxRecNodes = 1
   EmitCases = TRUE
   DesignMax = 9
